@@ -164,6 +164,19 @@ class WitnessModel(Model):
             axis, k = 0, key
         if isinstance(k, SVar) and 'concrete' in k.members:
             k = k.members['concrete']
+        if isinstance(k, SVar) and items_of(k) is not None and k.dtype == 'bool' and it is not None and rw is None:
+            # boolean-variable indexing: the selected elements (a new array), coordinates along with them
+            mask = [self._truth(x) for x in items_of(k)]
+            if len(mask) != len(it):
+                raise RaiseSignal('DimensionError', node, interp.where(node), ('boolean index of another length',))
+            sel = [i for i, m_ in enumerate(mask) if m_]
+            r = self.array(interp, [it[i] for i in sel], dims[0], like=v)
+            if v.kind == 'dataarray':
+                r.kind = 'dataarray'
+                r.members['coords'] = {n: (self.array(interp, [items_of(c)[i] for i in sel], dims[0], like=c)
+                                           if isinstance(c, SVar) and items_of(c) is not None and len(items_of(c)) == len(it) else c)
+                                       for n, c in (v.members.get('coords') or {}).items()}
+            return r
         if isinstance(k, slice) and any(isinstance(x, SVar) for x in (k.start, k.stop)):
             if rw is not None or k.step is not None:
                 raise AnalysisError(f'label-based slice of a 2-d array at {interp.where(node)}')
@@ -229,7 +242,7 @@ class WitnessModel(Model):
                 return self.matrix(interp, [self._zip(interp, x, b, f, node) for x in ia], da, like=b, dim1=db)
             if len(ia) != len(ib):
                 raise RaiseSignal('DimensionError', node, interp.where(node), (f'length mismatch {len(ia)} vs {len(ib)}',))
-            return self.array(interp, [f(x, y) for x, y in zip(ia, ib, strict=True)], da)
+            return self.array(interp, [f(x, y) for x, y in zip(ia, ib, strict=True)], da, like=a if not ia else None)  # empty: keeps the unit / dtype of the left operand
         if ia is not None:
             return self.array(interp, [f(x, b) for x in ia], a.members['dims'][0], like=a)
         return self.array(interp, [f(a, y) for y in ib], b.members['dims'][0], like=b)
@@ -290,6 +303,8 @@ class WitnessModel(Model):
         if isinstance(x, SVar):
             if 'concrete' in x.members:
                 return x.members['concrete']
+            if isinstance(x.term, Rat) and not x.term.atoms():
+                return T.evaluate(x.term, {}, self.fns) != 0  # a constant
             raise AnalysisError(f'truth value of {x!r} is not decided by the witness')
         return bool(x)
 
@@ -549,6 +564,33 @@ class WitnessModel(Model):
             return self.array(interp, flat, dim, like=parts[0])
         return super().sc_concat(interp, args, kwargs, node)
 
+    def sc_isclose(self, interp, args, kwargs, node):
+        """|x - y| <= atol + rtol * |y| decided at the witness (scipp's defaults: rtol = 1e-5, atol = 1e-8 in the unit of y)."""
+        a = _bind(['x', 'y', 'rtol', 'atol', 'equal_nan'], args, kwargs, {'rtol': None, 'atol': None, 'equal_nan': False})
+        x, y, rtol, atol = a['x'], a['y'], a['rtol'], a['atol']
+        if not (isinstance(x, SVar) and isinstance(y, SVar)):
+            return super().sc_isclose(interp, args, kwargs, node)
+
+        def one(p, q, at):
+            vp, vq = self.value(p), self.value(q)
+            vr = F(1, 10 ** 5) if rtol is None else self.value(rtol)
+            if at is None:
+                va = F(1, 10 ** 8) * (T.evaluate(q.unit.scale(), self.val, self.fns) if q.unit is not None else 1)
+            else:
+                va = self.value(at)
+            if None in (vp, vq, vr, va):
+                self.undecided.append((interp.where(node), 'isclose'))
+                return super(WitnessModel, self).sc_isclose(interp, [p, q], {'rtol': rtol, 'atol': at}, node)
+            return self.const_bool(interp, abs(vp - vq) <= va + vr * abs(vq))
+        if self._is_arr(x) or self._is_arr(y):
+            if isinstance(atol, SVar) and self._is_arr(atol):
+                ix, iy, ia = items_of(x), items_of(y), items_of(atol)
+                if ix is not None and iy is not None and ia is not None and len(ix) == len(iy) == len(ia):
+                    return self.array(interp, [one(p, q, t_) for p, q, t_ in zip(ix, iy, ia, strict=True)], x.members['dims'][0])
+                raise AnalysisError(f'isclose with an array tolerance of another shape at {interp.where(node)}')
+            return self._zip(interp, x, y, lambda p, q: one(p, q, atol), node)
+        return one(x, y, atol)
+
     def sc_cumsum(self, interp, args, kwargs, node):
         x = args[0] if args else kwargs.get('a')
         if isinstance(x, SVar) and items_of(x) is not None and kwargs.get('mode', 'inclusive') == 'inclusive':
@@ -749,7 +791,8 @@ class WitnessModel(Model):
             return nxt(x)
         if path == 'itertools.product' and all(isinstance(a, list | tuple) for a in args) and not kwargs:
             import itertools
-            return list(itertools.product(*args))
+            from .interp import GenResult
+            return GenResult(itertools.product(*args))  # a one-shot iterator
         if path == 'operator.attrgetter' and len(args) == 1 and isinstance(args[0], str):
             return _AttrGetter(args[0])
         if path == 'operator.itemgetter' and len(args) == 1:
